@@ -113,6 +113,24 @@ UPairSource(i) ==
     [] sh = 3 -> <<R("w"), OP(oa), R("x"), OP(ob), R("y"), OP(oa), R("z")>>
     [] sh = 4 -> <<R("x"), OP(oa), LP, R("y"), OP(ob), R("z"), RP>>
     [] sh = 5 -> <<OP("-"), R("x"), OP(oa), R("y"), OP("++"), OP(ob), R("z"), OP("?"), R("u"), OP(oa), R("v"), OP(":"), R("w")>>
+\* levels that hold operators of both associativities: the documentation does not say how `a L b R c` groups there (verdict
+\* Unspecified), but whatever the grouping is, it may not depend on what the operands look like: an operand replaced by a chain of a
+\* tighter-binding operator (which C02 groups first) or put in parentheses (C11) leaves the grouping of the two level operators alone.
+\* Sentence kinds per ordered pair (oa, ob): 0 base `x oa y ob z`; 1, 2, 3: the middle, left, right operand replaced.
+MixPairs == SetSeq({p \in (DOMAIN Table.infix) \X (DOMAIN Table.infix) : Table.infix[p[1]][1] = Table.infix[p[2]][1] /\ Table.infix[p[1]][2] # Table.infix[p[2]][2]})
+NMix == Len(MixPairs)
+Above(p) == {o \in DOMAIN Table.infix : Table.infix[o][1] > p /\ Table.infix[o][2] = "L"}
+TighterOp(p) == IF Above(p) = {} THEN "" ELSE CHOOSE o \in Above(p) : \A o2 \in Above(p) : Table.infix[o2][1] >= Table.infix[o][1]
+MixCount == NMix * 4
+MixPairOf(i) == ((i - 1) \div 4) + 1
+MixKindOf(i) == (i - 1) % 4
+MixTight(i) == TighterOp(Table.infix[MixPairs[MixPairOf(i)][1]][1])
+MixSource(i) ==
+  LET oa == MixPairs[MixPairOf(i)][1]  ob == MixPairs[MixPairOf(i)][2]  k == MixKindOf(i)  t == MixTight(i)
+      Opnd(n, n2, on) == IF ~on THEN <<R(n)>> ELSE IF t = "" THEN <<LP, R(n), RP>> ELSE <<R(n), OP(t), R(n2)>> IN
+  Opnd("x", "x2", k = 2) \o <<OP(oa)>> \o Opnd("y", "y2", k = 1) \o <<OP(ob)>> \o Opnd("z", "z2", k = 3)
+MixSet == 1..MixCount
+EmitMix(i, toks, ok, ast) == PrintT(ToJson([toks |-> toks, ok |-> ok, ast |-> ast, v |-> Verdict(toks, Table)[1], pair |-> MixPairOf(i), kind |-> MixKindOf(i), tight |-> MixTight(i)]))
 UPairSet == 1..UPairCount
 PairSet == 1..PairCount
 TripleSet == 1..TripleCount
